@@ -41,6 +41,7 @@ structure D where
   hookVal : HookRes := .ok
   cancelIssued : Bool := false
   pauseSeen : Bool := false          -- the script issued a pause (API or block hook)
+  dummy : Bool := false              -- a dummy task of another request occupies the only worker (parked at `work`)
   cancelFam : Bool := false          -- the script issued a cancelling stimulus (cancel, failure status, response-hook error)
   -- print cursors
   nP : Nat := 0
@@ -56,7 +57,7 @@ def headIsResp (s : State) : Bool :=
     if GS.Generated.ReqLifecycleSpec.hooksAfterPeerFilter then s.reg == .live && p == s.peer else true
   | _, _ => false
 
-def parkedWork (d : D) : Bool := d.s.w == .popped && d.gWork && !d.tWork
+def parkedWork (d : D) : Bool := (d.dummy || d.s.w == .popped) && d.gWork && !d.tWork
 def parkedRead (d : D) : Bool := d.s.w == .read && d.gRead && !d.tRead
 def parkedHook (d : D) : Bool := d.s.w == .hook && d.gHook && !d.tHook
 def isSendPhase (w : WPhase) : Bool :=
@@ -170,7 +171,9 @@ def oneStep (d : D) : Option D :=
     fun d => if d.gRp then none else act d .cpDeliver,
     fun d => act d .ceExit, fun d => act d .cpExit, fun d => act d .cpCancelExit,
     actMgr,
-    fun d => act d .wPop, actGet, fun d => act d .xTop, actWait, actRead, actHook,
+    -- the dummy task is finished as soon as the `work` gate lets the worker go; until then the worker is taken
+    fun d => if d.dummy && !(d.gWork && !d.tWork) then some { d with dummy := false, tWork := false } else none,
+    fun d => if d.dummy then none else act d .wPop, actGet, fun d => act d .xTop, actWait, actRead, actHook,
     fun d => act d (.xAfterErr (if d.i == 0 then .rootErr else .cont 0 false)), actSend,
     fun d => act d .xErrCtx, fun d => act d .xFinCtx ]
   tries.findSome? (fun f => f d)
@@ -294,11 +297,12 @@ def endLoop : Nat → D → D
 
 def stepLine (d : D) (t : Toks) : D × String :=
   match t with
-  | ["new", n, k, v] =>
+  | "new" :: n :: k :: v :: rest =>
     match n.toNat?, k.toNat?, v.toNat? with
     | some n, some k, some v =>
       if d.created || n < 1 || n > 8 || k > n || v < 1 || v > 6 then (d, "bad-op") else
-      let d := { d with created := true, n, k, v, s := init 0 1000000000 (n * (v + 1) + 2) }
+      let d := { d with created := true, n, k, v, s := init 0 1000000000 (n * (v + 1) + 2),
+                        dummy := rest.headD "0" == "1" }
       obs (settleD (stim d .envNew)) ""
     | _, _, _ => (d, "bad-op")
   | ["gate", g, x] =>
